@@ -282,10 +282,15 @@ def shard_writers(arg):
     from evo.tools import file_interface as fi
     wd = tempfile.mkdtemp(dir=os.getcwd(), prefix="c07w_")
     acc = Acc()
-    for n in (1, 2, 5):
+    hard = common.rot_hard(int(os.environ.get("VERIF_SEED", "0") or 0), 3)
+    for n in (1, 2, 5, len(hard)):
         for mode in ("quat", "se3", "quat+read"):
             Rs = [geom.rodrigues((1 + k, 2, 3 - k), 0.3 + 0.9 * k)
                   for k in range(n)]
+            if n == len(hard):
+                # the hard rotation alphabet: angles within 1e-12 of 0 and
+                # pi, exact half and quarter turns about the axes, generic
+                Rs = list(hard)
             ps = [np.array([1.0 + k, -2.0 * k, 0.5 + 0.25 * k])
                   for k in range(n)]
             ts = [1.5e9 + 0.5 * k for k in range(n)]
